@@ -15,6 +15,8 @@
    `noinf_work l` = the same without the inferral packet. *)
 From Coq Require Import ZArith List Bool Lia.
 From CSS Require Import Queue.Model Queue.Lists Queue.Termination Queue.Invariant Queue.Trace.
+From CSS Require Gen.QueueCanDoInferral Gen.QueueCanDoInitial Gen.QueueChangeLevelOrder.
+From CSS Require Import Queue.GenBridge.
 Import ListNotations.
 Open Scope nat_scope.
 
@@ -407,6 +409,27 @@ Proof.
   exact (proj1 (C16_do_level_fresh_done qinf qini qexp qd1)).
 Qed.
 
+(* ================= the pure parts are the source's (translator) =================
+   can_do_inferral / can_do_initial and the order in which _change_level
+   schedules the next level (labels of next_level by decreasing count, stable)
+   are the source's expressions (Gen/QueueCanDoInferral.v, Gen/QueueCanDoInitial.v,
+   Gen/QueueChangeLevelOrder.v, re-translated from class_queue.py on every run). *)
+Theorem C16_can_do_inferral_is_source : forall infs q l,
+  Model.can_do_inferral infs q l =
+  QueueCanDoInferral.can_do_inferral infs (inferral_expanded q) l.
+Proof. exact can_do_inferral_is_source. Qed.
+
+Theorem C16_can_do_initial_is_source : forall inis q l,
+  Model.can_do_initial inis q l =
+  QueueCanDoInitial.can_do_initial inis (initial_expanded q) l.
+Proof. exact can_do_initial_is_source. Qed.
+
+Theorem C16_level_order_is_source : forall q q',
+  change_level q = POk q' ->
+  curr_level q' =
+  extend_first (QueueChangeLevelOrder.change_level_order (next_level q)) (curr_level q).
+Proof. exact change_level_is_source. Qed.
+
 Print Assumptions C16_next_terminates.
 Print Assumptions C16_fuel_irrelevant.
 Print Assumptions C16_history_total.
@@ -419,3 +442,6 @@ Print Assumptions C16_stop_again.
 Print Assumptions C16_exhaustion_stable.
 Print Assumptions C16_do_level.
 Print Assumptions C16_do_level_fresh_done.
+Print Assumptions C16_can_do_inferral_is_source.
+Print Assumptions C16_can_do_initial_is_source.
+Print Assumptions C16_level_order_is_source.
